@@ -127,6 +127,15 @@ fn process_attrs(cx: &mut Ctx, attrs: &mut Vec<Attribute>) -> bool {
             }
         }
     }
+    // premise of "derived serde impls are field-wise": every serde attribute (container bounds, and any field-level skip / with / default /
+    // rename ...) is recorded as an anchor; a tree whose serde attributes differ from the verified baseline has lost that premise
+    for a in attrs.iter() {
+        let t = ts(a);
+        if t.contains("serde") && (t.contains("serde (") || t.contains("serde(")) && !t.contains("derive (serde") || (t.contains("serde (") && t.matches("serde").count() > t.matches("serde ::").count()) {
+            let src = cx.cur_src.clone();
+            cx.anchors.entry("serde_attrs".to_string()).or_default().push(format!("{}: {}", src, t));
+        }
+    }
     if !attrs.is_empty() { cx.rule("R1.attr"); }
     attrs.clear();
     keep
